@@ -568,4 +568,17 @@ def r8_14(ctx):
     borrow(ctx, r13_7, "R13.7", "R8.14", " [the child's lines are cropped / padded to the inner width in cells]")
 
 
-RULES = [r8_3, r8_4, r8_5, r8_6, r8_7, r8_8, r8_9, r8_10, r8_11, r8_12, r8_13, r8_14]
+def r8_15(ctx):
+    ctx.rule("R8.15", "grid positions are kept: in Columns.__rich_console__ the list of cells (with its None placeholders that complete the last row) is only ever MAPPED - every comprehension that rebuilds it from itself has no filter - because rows are cut out of it by position; dropping the placeholders shifts the cells of a short last row into the wrong columns")
+    f = ctx.repo.fn("columns:Columns.__rich_console__")
+    m = f.module
+    n = 0
+    for x in walk_local(f.node):
+        if isinstance(x, ast.Assign) and len(x.targets) == 1 and isinstance(x.targets[0], ast.Name) and isinstance(x.value, ast.ListComp) and len(x.value.generators) == 1 and norm(x.value.generators[0].iter) == x.targets[0].id:
+            n += 1
+            ctx.check(not x.value.generators[0].ifs, f.fq, short(x), f"{m.relpath}:{x.lineno}", "cells rewrapped one for one",
+                      f"`{short(x)}` filters the cell list while rewrapping it: the None placeholders that pad the last row disappear, rows are then cut at the wrong positions (with right_to_left the short row is placed from the wrong side)")
+    ctx.floor(n, 1, "one-for-one rewraps of the cell list in Columns")
+
+
+RULES = [r8_3, r8_4, r8_5, r8_6, r8_7, r8_8, r8_9, r8_10, r8_11, r8_12, r8_13, r8_14, r8_15]
